@@ -29,7 +29,15 @@ def curv(xa, ga, xb, gb):
     return bool(float((xb - xa).dot(y)) > EPS * float(y.dot(y)))
 
 
-def switching(spec):
+def pairs_ok(h, maxcor):
+    """Every pair of an operator has curvature and there are at most maxcor of them."""
+    sk, yk = np.atleast_2d(h.sk), np.atleast_2d(h.yk)
+    if sk.size == 0:
+        return True
+    return bool(sk.shape[0] <= maxcor and all(float(sk[i] @ yk[i]) > EPS * float(yk[i] @ yk[i]) for i in range(sk.shape[0])))
+
+
+def switching(spec, prefix="C13"):
     import warnings
 
     warnings.simplefilter("ignore")
@@ -70,6 +78,9 @@ def switching(spec):
             else:  # adversarial: flip the sign of some stored gradients (no consistent objective)
                 G2 = deque((-gi if flips[i % 20] else gi.copy()) for i, gi in enumerate(G))
                 out = (f0, f0_old, grad, G2)
+            if spec.get("stop_now"):
+                # the redefinition reports no decrease (f0_old := f0): the ftol test ends the run in this very iteration
+                out = (out[0], out[0], out[2], out[3])
             if style != "new":
                 # the same rewrite handed back through the deque the solver passed in: "replace" stores the new
                 # arrays in it, "inplace" overwrites the stored arrays; both return the very same deque object
@@ -97,10 +108,26 @@ def switching(spec):
         res = lbfgsb.minimize_lbfgsb(x0=p.x0, fun=log.fun, jac=log.grad, bounds=p.bounds, update_fun_def=upd,
                                      callback=cb, **kw)
     except Exception as ex:  # noqa: BLE001
-        return {"spec": spec, "traces": [("raises", kswitch, equiv.merge("C13_Switch", True, [], [], {"no_exception_" + type(ex).__name__: False}))]}
+        return {"spec": spec, "traces": [("raises", kswitch, equiv.merge(prefix + "_Switch", True, [], [], {"no_exception_" + type(ex).__name__: False}))]}
     out = {"spec": spec, "traces": []}
     if seen["X"] is None:
         return out
+    # whatever stops the run after the rewrite (ftol / target / budget in the very iteration of the rewrite included):
+    # every state reported since and the result carry at most maxcor pairs, each with curvature
+    fr = {"result_pairs_have_curvature": pairs_ok(res.hess_inv, kw["maxcor"]),
+          "later_states_pairs_have_curvature": all(pairs_ok(s_.hess_inv, kw["maxcor"]) for s_ in states if s_.nit >= kswitch)}
+    if res.nit == kswitch - 1:
+        # stopped in the iteration of the rewrite, before the memory update: the result holds the filtered rewritten history
+        Xr, Gr = seen["X"], seen["G"]
+        kp = [len(Xr) - 1]
+        for k in range(len(Xr) - 2, -1, -1):
+            if curv(Xr[k], Gr[k], Xr[kp[0]], Gr[kp[0]]):
+                kp.insert(0, k)
+        esk_ = np.diff(np.array([Xr[i] for i in kp]), axis=0).reshape(-1, p.n) if len(kp) > 1 else np.zeros((0, p.n))
+        eyk_ = np.diff(np.array([Gr[i] for i in kp]), axis=0).reshape(-1, p.n) if len(kp) > 1 else np.zeros((0, p.n))
+        rs, ry = np.atleast_2d(res.hess_inv.sk).reshape(-1, p.n), np.atleast_2d(res.hess_inv.yk).reshape(-1, p.n)
+        fr["result_holds_filtered_rewritten_history"] = bool(rs.shape == esk_.shape and np.array_equal(rs, esk_) and np.array_equal(ry, eyk_))
+    out["traces"].append(("result", kswitch, equiv.merge(prefix + "_Switch", True, [], [], fr)))
     # expected history right after the switch: filter (greedy from the newest stored point), then the new point
     X, G = seen["X"], seen["G"]
     keep = [len(X) - 1]
@@ -124,7 +151,7 @@ def switching(spec):
          "newest_point_retained": bool((not acc) or (sk.shape[0] > 0 and np.array_equal(sk[-1], st.x - Xf[-2])
                                                       and np.array_equal(st.x, seen["x"]))),
          "state_is_new_objective": bool(st.fun == f_of(st.x, w["v"]) and np.array_equal(st.jac, g_of(st.x, w["v"]))) if kind != "adversarial" else True}
-    out["traces"].append(("pairs", kswitch, equiv.merge("C13_Switch", True, [], [], f)))
+    out["traces"].append(("pairs", kswitch, equiv.merge(prefix + "_Switch", True, [], [], f)))
     # continuation == restart on the new objective from the state holding the rewritten history
     if kind != "adversarial" and res.nit > kswitch and acc and sk.shape[0] > 0:
         rlog = equiv.EvalLog(lambda x: f_of(x, w["v"]), lambda x: g_of(x, w["v"]))
@@ -133,7 +160,69 @@ def switching(spec):
                                     checkpoint=st, **kw2)
         j = [s.nit for s in states].index(kswitch)
         tail = log.pts[marks[j]:]
-        out["traces"].append(("restart", kswitch, equiv.merge("C13_Restart", False, tail, rlog.pts, None, limit=4, rtol=1e-6)))
+        out["traces"].append(("restart", kswitch, equiv.merge(prefix + "_Restart", False, tail, equiv.strip_cached(rlog.pts, st.x), None, limit=4, rtol=1e-6)))
+    return out
+
+
+def restart_rewrite(spec, prefix="C13"):
+    """Stop at iteration k, restart from the result with an update function whose FIRST call (the one made before
+    iterating, on the sequences restored from the checkpoint) redefines the objective."""
+    import warnings
+
+    warnings.simplefilter("ignore")
+    np.seterr(all="ignore")
+    import lbfgsb
+
+    p = corpus.make_problem(spec)
+    kw = dict(spec["kwargs"])
+    kind, k = spec["rewrite"], spec["k"]
+    rng = np.random.default_rng([spec["pseed"], 131])
+    reg_c = rng.normal(0, 1, p.n)
+    new_w = float(rng.uniform(1.0, 8.0))
+    fr_ = rng.uniform(2.0, 5.0, p.n)
+    flips = rng.random(20) < 0.5
+
+    def f_new(x):
+        if kind == "nonconvex":
+            return p.fun(x) + new_w * float(np.sum(np.cos(fr_ * x)))
+        return p.fun(x) + new_w * 0.5 * float((x - reg_c) @ (x - reg_c))
+
+    def g_new(x):
+        if kind == "nonconvex":
+            return np.asarray(p.grad(x), float) - new_w * fr_ * np.sin(fr_ * x)
+        return np.asarray(p.grad(x), float) + new_w * (x - reg_c)
+
+    ck = lbfgsb.minimize_lbfgsb(x0=p.x0, fun=p.fun, jac=p.grad, bounds=p.bounds, **dict(kw, maxiter=k))
+    out = {"spec": spec, "traces": []}
+    if ck.nit != k or np.atleast_2d(ck.hess_inv.sk).size == 0:
+        return out
+    sw = {"on": False}
+    calls = {"n": 0}
+
+    def upd(x, f0, f0_old, grad, X, G):
+        calls["n"] += 1
+        if calls["n"] == 1:
+            sw["on"] = True
+            if kind == "adversarial":
+                return f0, f0_old, grad, deque((-gi if flips[i % 20] else gi.copy()) for i, gi in enumerate(G))
+            return f_new(x), f0_old, g_new(x), deque(g_new(xi) for xi in X)
+        return f0, f0_old, grad, G
+
+    adv = kind == "adversarial"
+    states = []
+    try:
+        res = lbfgsb.minimize_lbfgsb(x0=np.array(ck.x, copy=True), fun=(lambda x: f_new(x) if (sw["on"] and not adv) else p.fun(x)),
+                                     jac=(lambda x: g_new(x) if (sw["on"] and not adv) else p.grad(x)), bounds=p.bounds,
+                                     checkpoint=ck, update_fun_def=upd, callback=lambda xk, st: states.append(copy.deepcopy(st)) and False,
+                                     **dict(kw, maxiter=k + 3))
+    except Exception as ex:  # noqa: BLE001
+        out["traces"].append(("restart-rewrite", k, equiv.merge(prefix + "_RestartRewrite", True, [], [], {"no_exception_" + type(ex).__name__: False})))
+        return out
+    f = {"result_pairs_have_curvature": pairs_ok(res.hess_inv, kw["maxcor"]),
+         "states_pairs_have_curvature": all(pairs_ok(s_.hess_inv, kw["maxcor"]) for s_ in states)}
+    if not adv:
+        f["states_are_new_objective"] = all(s_.fun == f_new(s_.x) and np.array_equal(s_.jac, g_new(s_.x)) for s_ in states)
+    out["traces"].append(("restart-rewrite", k, equiv.merge(prefix + "_RestartRewrite", True, [], [], f)))
     return out
 
 
@@ -156,7 +245,7 @@ def identity(spec):
 
 def specs(ctx):
     rng = np.random.default_rng([ctx.seed, 13])
-    sw, idt = [], []
+    sw, idt, rr = [], [], []
     for i in range(ctx.pick(240, 2400)):
         fam = (problems.CONVEX + ["rosenbrock", "qpcos"])[int(rng.integers(5))]
         base = {"family": fam, "n": int(rng.integers(2, 8)), "pseed": int(rng.integers(1 << 30)),
@@ -167,13 +256,23 @@ def specs(ctx):
         s["rewrite"] = ["rescale", "reweight", "adversarial"][i % 3]
         s["style"] = ["new", "inplace", "replace"][(i // 3) % 3]
         s["k"] = int(rng.integers(1, base["kwargs"]["maxiter"]))
+        if i % 2 == 1:
+            # loose ftol: the run may stop in the very iteration of the rewrite
+            s["kwargs"] = dict(base["kwargs"], ftol=float(rng.choice([1e-1, 1e-2, 1e-3])), maxiter=12)
+            s["k"] = int(rng.integers(2, 11))
+            s["stop_now"] = bool(i % 4 == 3)
         sw.append(s)
+        if i % 2 == 1:
+            r_ = dict(base)
+            r_["rewrite"] = ["nonconvex", "reweight", "adversarial"][(i // 2) % 3]
+            r_["k"] = int(rng.integers(2, 9))
+            rr.append(r_)
         if i % 2 == 0:
             b = dict(base)
             b["kwargs"] = dict(base["kwargs"], ftol=float(rng.choice([0.0, 1e-6, 1e-2])), maxiter=int(rng.integers(0, 15)),
                                maxfun=int(rng.choice([3, 10, 400])))
             idt.append(b)
-    return sw, idt
+    return sw, idt, rr
 
 
 def run(ctx):
@@ -182,9 +281,9 @@ def run(ctx):
         recs = c10.memory_states(ctx, c)
         c10.replay_states(ctx, recs, ("C13_",))
         ctx.add_counts(evaluations=len(recs), distinct_nontrivial=len(recs))
-    sw, idt = specs(ctx)
+    sw, idt, rr = specs(ctx)
     with mp.get_context("fork").Pool(NCPU) as pool:
-        res = pool.map(switching, sw, chunksize=2) + pool.map(identity, idt, chunksize=2)
+        res = pool.map(switching, sw, chunksize=2) + pool.map(identity, idt, chunksize=2) + pool.map(restart_rewrite, rr, chunksize=2)
     flat = [(r["spec"], kind, k, tr) for r in res for (kind, k, tr) in r["traces"]]
     viols = validate(ctx, [t[3] for t in flat], module="Equiv", name="equiv-c13")
     for (spec, kind, k, tr), v in zip(flat, viols):
@@ -193,7 +292,7 @@ def run(ctx):
                               "summary": f"{kind} k={k} rewrite={spec.get('rewrite')} {spec['family']} n={spec['n']} kwargs={spec['kwargs']}"})
     ctx.add_counts(evaluations=len(flat), distinct_nontrivial=len({(json.dumps(s, sort_keys=True), kd, k) for s, kd, k, _ in flat}))
     ctx.add_samples([{"spec": s, "relation": kd, "k": k, "trace": tr[:6]} for s, kd, k, tr in flat[:3]])
-    ctx.cov["relations"] = {kd: sum(1 for t in flat if t[1] == kd) for kd in ("pairs", "restart", "identity", "raises")}
+    ctx.cov["relations"] = {kd: sum(1 for t in flat if t[1] == kd) for kd in ("pairs", "result", "restart", "restart-rewrite", "identity", "raises")}
     # Driver-level: filter clauses of runs with an identity update function
     rng = np.random.default_rng([ctx.seed, 131])
     dspecs = []
@@ -209,7 +308,7 @@ def replay(ctx, path):
     rec = json.load(open(path))
     if rec.get("kind") == "driver-trace":
         return drivercheck.replay(ctx, path, PREFIX)
-    r = (identity if rec["relation"] == "identity" else switching)(rec["spec"])
+    r = (identity if rec["relation"] == "identity" else restart_rewrite if rec["relation"] == "restart-rewrite" else switching)(rec["spec"])
     v = validate(ctx, [t[2] for t in r["traces"]], module="Equiv", name="replay")
     print(json.dumps({"clauses": [sorted(x) for x in v]}, indent=1))
     ctx.add_counts(evaluations=2, distinct_nontrivial=2)
